@@ -60,6 +60,9 @@ pub enum S {
 pub struct Case {
     pub shape: S,
     pub points: Vec<[Fl; 3]>,
+    /// build equal sub-shapes once and share the Tree between their occurrences
+    #[serde(default)]
+    pub share: bool,
 }
 
 pub struct P;
@@ -119,9 +122,36 @@ fn plane_vec(p: &Pl) -> Option<([f64; 3], f64)> {
     })
 }
 
+thread_local! {
+    /// when Some: equal sub-specs are built once and the same Tree (the same
+    /// allocation) is used at every occurrence, as a user who clones a Tree does
+    static SHARE: std::cell::RefCell<Option<Vec<(String, Tree)>>> = const { std::cell::RefCell::new(None) };
+}
+
 impl S {
     /// The library's tree for this spec
     fn tree(&self) -> Option<Tree> {
+        let key = SHARE.with(|m| m.borrow().is_some()).then(|| serde_json::to_string(self).unwrap());
+        if let Some(k) = &key {
+            let hit = SHARE.with(|m| {
+                m.borrow().as_ref().and_then(|v| v.iter().find(|(kk, _)| kk == k).map(|(_, t)| t.clone()))
+            });
+            if hit.is_some() {
+                return hit;
+            }
+        }
+        let t = self.tree_inner()?;
+        if let Some(k) = key {
+            SHARE.with(|m| {
+                if let Some(v) = m.borrow_mut().as_mut() {
+                    v.push((k, t.clone()));
+                }
+            });
+        }
+        Some(t)
+    }
+
+    fn tree_inner(&self) -> Option<Tree> {
         Some(match self {
             S::Sphere { c, r } => Sphere {
                 center: v3(c),
@@ -350,11 +380,15 @@ fn rotate(p: [f64; 3], a: [f64; 3], deg: f64, c: [f64; 3]) -> [f64; 3] {
 
 struct World {
     ctx: Context,
+    share: bool,
 }
 
 impl World {
     fn lib(&mut self, s: &S, p: [f64; 3]) -> Option<f64> {
-        let t = s.tree()?;
+        SHARE.with(|m| *m.borrow_mut() = self.share.then(Vec::new));
+        let t = s.tree();
+        SHARE.with(|m| *m.borrow_mut() = None);
+        let t = t?;
         let n = self.ctx.import(&t);
         Some(self.ctx.eval_xyz(n, p[0] as f32, p[1] as f32, p[2] as f32).unwrap() as f64)
     }
@@ -736,6 +770,26 @@ fn shape(depth: u32) -> BoxedStrategy<S> {
                 .prop_map(|(a, bb, r)| S::Blend(a, bb, r)),
             2 => (b(i.clone()), b(i.clone())).prop_map(|(a, bb)| S::Difference(a, bb)),
             1 => b(i.clone()).prop_map(S::Inverse),
+            // one shape used twice, plain and under a transform, in either
+            // order (with Case::share the two uses are one Tree allocation)
+            3 => (i.clone(), c3(), 0u8..6, 0u8..5).prop_map(|(s, o, wrap, comb)| {
+                let bx = |s: &S| std::boxed::Box::new(s.clone());
+                let t = match wrap {
+                    0 => S::Move(bx(&s), o),
+                    1 => S::ReflectX(bx(&s), o[0]),
+                    2 => S::RotateZ(bx(&s), Fl(90.0), o),
+                    3 => S::ScaleUniform(bx(&s), Fl(2.0)),
+                    4 => S::Move(std::boxed::Box::new(S::ReflectY(bx(&s), o[1])), o),
+                    _ => S::Inverse(bx(&s)),
+                };
+                match comb {
+                    0 => S::Union(vec![s, t]),
+                    1 => S::Union(vec![t, s]),
+                    2 => S::Difference(std::boxed::Box::new(s), std::boxed::Box::new(t)),
+                    3 => S::Difference(std::boxed::Box::new(t), std::boxed::Box::new(s)),
+                    _ => S::Intersection(vec![s.clone(), t, s]),
+                }
+            }),
         ]
     })
     .boxed()
@@ -746,8 +800,8 @@ impl Prop for P {
     type Case = Case;
 
     fn strategy(tier: Tier) -> BoxedStrategy<Case> {
-        (shape(tier.pick(3, 4)), vec([coord(), coord(), coord()], 1..=8))
-            .prop_map(|(shape, points)| Case { shape, points })
+        (shape(tier.pick(3, 4)), vec([coord(), coord(), coord()], 1..=8), any::<bool>())
+            .prop_map(|(shape, points, share)| Case { shape, points, share })
             .boxed()
     }
 
@@ -765,6 +819,7 @@ impl Prop for P {
             v.push(Case {
                 shape: S::Plane(p.clone()),
                 points: pts.clone(),
+                share: false,
             });
             v.push(Case {
                 shape: S::Reflect(
@@ -775,6 +830,7 @@ impl Prop for P {
                     p,
                 ),
                 points: pts.clone(),
+                share: false,
             });
         }
         for a in [Ax::X, Ax::Y, Ax::Z] {
@@ -789,6 +845,7 @@ impl Prop for P {
                     [Fl(0.0), Fl(0.0), Fl(0.0)],
                 ),
                 points: pts.clone(),
+                share: false,
             });
         }
         v
@@ -819,7 +876,10 @@ impl Prop for P {
                 p.offset
             );
         }
-        let mut w = World { ctx: Context::new() };
+        let mut w = World { ctx: Context::new(), share: case.share };
+        if case.share {
+            cx.ev.count("cases_with_shared_subtrees");
+        }
         for p in &case.points {
             check_node(&mut w, &case.shape, fa(p), cx, 0)?;
         }
